@@ -49,7 +49,7 @@ MANIFEST = dict(
        "only exercised by the correspondence / harness oracle (not theorems): dlinmin and wolfecubic line searches (contracts LSSound/LSNoIncrease are hypotheses, checked per step on the real code), "
        "TrustRegionNewton (oracle only: value=f(point), finite, no increase, resume), finiteness, convergence on strictly convex quadratics (numerical oracle inside the harness, tolerance as stated). "
        "Open findings on the unpatched tree (known_findings.json, findings_proposed/C10.md): F11, F-C10-12 (dog-leg ignores a bound at distance 0: infeasible direction / 'internal error'), "
-       "F-C10-13 (stall when an iterate is outside the box by rounding), F-C10-14 (Cauchy step lacks the factor |p0|^2: thousands of steps); the check is green on the tree with the proposed patches and follows them automatically.",
+       "F-C10-13 (stall when an iterate is outside the box by rounding), F-C10-14 (Cauchy step lacks the factor |p0|^2: thousands of steps), F-C10-15 (low severity: freeze at relative accuracy 1e-5 when a movable variable is 1e-12 from the bound it moves to); the check is green on the tree with the proposed patches and follows them automatically.",
   technique="Lean 4 invariant/refinement proofs over all step sequences + differential correspondence with the C++ (ASan/UBSan), bit-exact and exact-rational modes; independent numerical oracles in the harness",
   design="§6 C10, §14 C10")
 FINISH = dict(level="proof",
